@@ -54,11 +54,16 @@ func parseCall(a string) (string, []string, bool) {
 }
 
 func (e *Exec) scenarioShape(path string, t types.Type, a string) ([]altFn, bool) {
+	w := e.w
+	if strings.Contains(a, ":") && !strings.Contains(a, "(") {
+		// codegen.Type alternatives: prim:string ptr:int arr2:int arr1:null null: named:...
+		parts := strings.SplitN(a, ":", 2)
+		return []altFn{func(s *State) (Val, string) { return w.codegenType(s, parts[0], parts[1]), path + "=" + a }}, true
+	}
 	name, args, ok := parseCall(a)
 	if !ok {
 		return nil, false
 	}
-	w := e.w
 	one := func(f func(s *State) Val, desc string) ([]altFn, bool) {
 		return []altFn{func(s *State) (Val, string) { return f(s), path + "=" + desc }}, true
 	}
@@ -104,6 +109,47 @@ func (e *Exec) scenarioShape(path string, t types.Type, a string) ([]altFn, bool
 				fields["Type"] = Iface{Dyn: types.NewPointer(stT), V: r}
 			}
 			return mkStruct(declT, fields)
+		}, a)
+	case "sgen": // sgen(tag1,tag2,...): a *schemaGenerator with an empty output file and these struct tags
+		p, ok := t.Underlying().(*types.Pointer)
+		if !ok {
+			unsupported("sgen() on non-pointer")
+		}
+		return one(func(s *State) Val {
+			genT := w.namedType("pkg/generator", "Generator")
+			cfgT := w.namedType("pkg/generator", "Config")
+			outT := w.namedType("pkg/generator", "output")
+			fileT := w.namedType("pkg/codegen", "File")
+			var tags []Val
+			for _, tg := range args {
+				tags = append(tags, atom("tag:"+tg))
+			}
+			var tagSlice Val = SliceV{}
+			if len(tags) > 0 {
+				ar := s.alloc(&Agg{Elems: tags})
+				delete(s.Fresh, ar.Cell)
+				tagSlice = SliceV{Arr: ar, Len_: len(tags), Cap: len(tags)}
+			}
+			strFn := types.NewSignatureType(nil, nil, nil, types.NewTuple(types.NewVar(0, nil, "", types.Typ[types.String])), nil, false)
+			cfg := mkStruct(cfgT, map[string]Val{"Tags": tagSlice, "OnlyModels": mkVar("g.config.OnlyModels", SBool), "MinSizedInts": mkVar("g.config.MinSizedInts", SBool), "Warner": Opaque{Tag: "config.Warner", Typ: strFn}})
+			fr := s.alloc(zeroVal(fileT))
+			delete(s.Fresh, fr.Cell)
+			s.CellTypes[fr.Cell] = fileT
+			or := s.alloc(mkStruct(outT, map[string]Val{"file": fr, "warner": Opaque{Tag: "warner", Typ: strFn}}))
+			delete(s.Fresh, or.Cell)
+			s.CellTypes[or.Cell] = outT
+			caserT := w.namedType("internal/x/text", "Caser")
+			cr := s.alloc(zeroVal(caserT))
+			delete(s.Fresh, cr.Cell)
+			s.CellTypes[cr.Cell] = caserT
+			gr := s.alloc(mkStruct(genT, map[string]Val{"config": cfg, "warner": Opaque{Tag: "warner", Typ: strFn}, "caser": cr}))
+			delete(s.Fresh, gr.Cell)
+			s.CellTypes[gr.Cell] = genT
+			sg := mkStruct(p.Elem(), map[string]Val{"Generator": gr, "output": or})
+			r := s.alloc(sg)
+			delete(s.Fresh, r.Cell)
+			s.CellTypes[r.Cell] = p.Elem()
+			return r
 		}, a)
 	case "decls": // decls(a, b, ...): *output whose declsByName holds finished declarations of these names
 		p, ok := t.Underlying().(*types.Pointer)
@@ -199,4 +245,50 @@ func (e *Exec) abstractInvoke(s *State, c *ssa.Call, recv Iface, args []Val) ([]
 	}
 	unsupported("abstract validator method %s", c.Call.Method.Name())
 	return nil, true
+}
+
+// codegenType builds a codegen.Type value: kind in {prim, ptr, arrN, null, named}.
+func (w *World) codegenType(s *State, kind, arg string) Val {
+	primT := w.namedType("pkg/codegen", "PrimitiveType")
+	prim := func(name string) Val {
+		return Iface{Dyn: primT, V: mkStruct(primT, map[string]Val{"Type": lit(name)})}
+	}
+	elem := func(arg string) Val {
+		if arg == "null" {
+			nt := w.namedType("pkg/codegen", "NullType")
+			return Iface{Dyn: nt, V: zeroVal(nt)}
+		}
+		return prim(arg)
+	}
+	allocIn := func(v Val, t types.Type) Ref {
+		r := s.alloc(v)
+		delete(s.Fresh, r.Cell)
+		s.CellTypes[r.Cell] = t
+		return r
+	}
+	switch {
+	case kind == "prim":
+		return prim(arg)
+	case kind == "null":
+		return elem("null")
+	case kind == "ptr":
+		pt := w.namedType("pkg/codegen", "PointerType")
+		return Iface{Dyn: types.NewPointer(pt), V: allocIn(mkStruct(pt, map[string]Val{"Type": elem(arg)}), pt)}
+	case strings.HasPrefix(kind, "arr"):
+		n := 0
+		fmt.Sscanf(kind, "arr%d", &n)
+		at := w.namedType("pkg/codegen", "ArrayType")
+		cur := elem(arg)
+		for i := 0; i < n; i++ {
+			cur = Iface{Dyn: types.NewPointer(at), V: allocIn(mkStruct(at, map[string]Val{"Type": cur}), at)}
+		}
+		return cur
+	case kind == "named":
+		nt := w.namedType("pkg/codegen", "NamedType")
+		dt := w.namedType("pkg/codegen", "TypeDecl")
+		d := allocIn(mkStruct(dt, map[string]Val{"Name": lit(arg)}), dt)
+		return Iface{Dyn: types.NewPointer(nt), V: allocIn(mkStruct(nt, map[string]Val{"Decl": d}), nt)}
+	}
+	unsupported("codegen type alternative %s:%s", kind, arg)
+	return nil
 }
